@@ -70,9 +70,10 @@ func (nilDerefString) String() string {
 
 // doublePanic: formatting it panics with a value whose formatting panics again. fmt
 // recovers only one level (fmt.(*pp).catchPanic re-panics when already "panicking"), so
-// formatting this value with %v panics. Region of proposed finding C48-format-repanic; it is
-// never generated by the main search (excluded by construction) and is confirmed in a child
-// process by TestC48Crash.
+// formatting this value with %v panics. Region of finding C48-format-repanic: while the finding
+// is listed the main search re-draws it (excluded by construction, counted in excluded_known);
+// otherwise it is generated like every other panic value. TestC48Crash confirms the witness in
+// a child process.
 type doublePanic struct{}
 
 func (d doublePanic) Error() string { panic(innerPanic{}) }
@@ -81,13 +82,18 @@ type innerPanic struct{}
 
 func (innerPanic) Error() string { panic("inner Error() panics too") }
 
-const nPanicKinds = 24
+const nPanicKinds = 25
+
+const kindDoublePanic = 24
+
+const knownFormatRepanic = "C48-format-repanic"
 
 var panicKindNames = [nPanicKinds]string{
 	"string", "error", "wrapped-error", "nil", "int", "float", "struct", "ptr-struct",
 	"typed-nil-error", "panicking-String", "panicking-Error", "panicking-Format",
 	"String-runtime-error", "rt-nil-map", "rt-index", "rt-nil-deref", "rt-div-zero",
 	"rt-type-assert", "rt-closed-chan", "bytes", "map", "func", "custom-error", "nil-func-call",
+	"double-panicking-Error",
 }
 
 var zero int // never changes; keeps the compiler from rejecting a constant division by zero
@@ -151,6 +157,8 @@ func doPanic(kind, id int) {
 	case 23:
 		var f func() error
 		_ = f()
+	case kindDoublePanic:
+		panic(doublePanic{})
 	}
 	panic("unreachable: kind did not panic")
 }
@@ -200,6 +208,7 @@ type group struct {
 }
 
 type builder struct {
+	st     *stats.Collector
 	rt     *rapid.T
 	nextID int
 	budget int
@@ -213,8 +222,8 @@ func (b *builder) node(depth int) *node {
 	n.yields = rapid.IntRange(0, 3).Draw(rt, "yields")
 	n.act = rapid.SampledFrom([]int{actNil, actNil, actErr, actErr, actPanic, actPanic, actPanic, actRecoverToErr, actDeferPanic, actRepanic, actCtxWait}).Draw(rt, "act")
 	n.errKind = rapid.IntRange(0, 4).Draw(rt, "errKind")
-	n.pkind = rapid.IntRange(0, nPanicKinds-1).Draw(rt, "pkind")
-	n.pkind2 = rapid.IntRange(0, nPanicKinds-1).Draw(rt, "pkind2")
+	n.pkind = b.panicKind(rapid.IntRange(0, nPanicKinds-1).Draw(rt, "pkind"))
+	n.pkind2 = b.panicKind(rapid.IntRange(0, nPanicKinds-1).Draw(rt, "pkind2"))
 	switch n.errKind {
 	case 0:
 		n.err = io.EOF
@@ -240,6 +249,18 @@ func (b *builder) node(depth int) *node {
 		}
 	}
 	return n
+}
+
+// panicKind maps the region of a listed finding to a neighbouring kind (a value whose Error()
+// panics once), so that the search continues behind the finding.
+func (b *builder) panicKind(k int) int {
+	if k == kindDoublePanic && kf.Listed(knownFormatRepanic) {
+		if b.st != nil {
+			b.st.Excluded(knownFormatRepanic)
+		}
+		return 10
+	}
+	return k
 }
 
 func (b *builder) group(depth, k int) *group {
@@ -513,7 +534,7 @@ func TestC48(t *testing.T) {
 	defer st.Flush()
 	rapid.Check(t, func(rt *rapid.T) {
 		st.Eval()
-		b := &builder{rt: rt, budget: rapid.IntRange(1, 12).Draw(rt, "budget")}
+		b := &builder{st: st, rt: rt, budget: rapid.IntRange(1, 12).Draw(rt, "budget")}
 		top := b.group(0, rapid.IntRange(1, 8).Draw(rt, "nfns"))
 		top.normalise()
 		want := top.outcome()
@@ -523,7 +544,7 @@ func TestC48(t *testing.T) {
 		nlog := rapid.IntRange(0, 2).Draw(rt, "nlog")
 		logKinds := make([]int, nlog)
 		for i := range logKinds {
-			logKinds[i] = rapid.IntRange(-1, nPanicKinds-1).Draw(rt, "logKind")
+			logKinds[i] = b.panicKind(rapid.IntRange(-1, nPanicKinds-1).Draw(rt, "logKind"))
 		}
 
 		r := &runner{wraps: map[error]error{}}
@@ -685,11 +706,14 @@ func TestC48Crash(t *testing.T) {
 		st.NonTrivial(nil, mode)
 		if survived {
 			st.Class("double-format-panic-survived:" + mode)
+			if kf.Listed(knownFormatRepanic) {
+				t.Logf("STALE known finding C48-format-repanic (%s): the doubly-panicking panic value is now turned into an error", mode)
+			}
 			continue
 		}
 		// signature: the child died (or lost the error) on the doubly-panicking panic value
-		st.Excluded("C48-format-repanic")
-		if kf.Suppress(st, "C48-format-repanic") {
+		st.Excluded(knownFormatRepanic)
+		if kf.Suppress(st, knownFormatRepanic) {
 			t.Logf("KNOWN C48-format-repanic (%s): child process died: %v", mode, err)
 			continue
 		}
